@@ -495,7 +495,11 @@ func (w *World) Ctx() sdk.Context {
 	h := w.Height + 1
 	hh := sha256.Sum256([]byte(fmt.Sprintf("block-hash-%d", h)))
 	header := cmtproto.Header{ChainID: ChainID, Height: h, Time: BlockTime(h), ProposerAddress: w.Validators[0].Cons()}
-	ms := w.App.CommitMultiStore().CacheMultiStore()
+	var ms storetypes.MultiStore = w.App.CommitMultiStore().CacheMultiStore()
+	if w.Height == 0 {
+		// nothing is committed yet: the genesis state lives in the finalize-block state created by InitChain
+		ms = w.App.NewContextLegacy(false, header).MultiStore().CacheMultiStore()
+	}
 	ctx := sdk.NewContext(ms, header, false, log.NewNopLogger()).
 		WithChainID(ChainID).WithHeaderHash(hh[:]).
 		WithConsensusParams(*w.ConsParams).
